@@ -27,7 +27,7 @@ OP_RULES = [
 KNOWN = '(vx_op == OP_TEST || vx_op == OP_ADD || vx_op == OP_REMOVE || vx_op == OP_REPLACE || vx_op == OP_MOVE || vx_op == OP_COPY)'
 OPC = [
     ('requires', '*ec_p == 0 && vx_tok == 0 && !vx_get_valid && !vx_pending && vx_edits == 0 && vx_pushes == 0'),
-    ('assigns', '*ec_p, vx_state, vx_tok, vx_get_valid, vx_get_path, vx_get_tok, vx_pend_kind, vx_pend_path, vx_pend_tok, vx_pending, vx_edits, vx_pushes'),
+    ('assigns', '*ec_p, vx_def_stamp, vx_state, vx_tok, vx_get_valid, vx_get_path, vx_get_tok, vx_pend_kind, vx_pend_path, vx_pend_tok, vx_pending, vx_edits, vx_pushes'),
     ('ensures', '[C15] every successful edit of the document has its inverse on the undo stack when the operation is left, whether it succeeded or failed', '!vx_pending && vx_pushes == vx_edits'),
     ('ensures', '[C15] a failure is reported through the error code and marks the run aborted, so that the unwinder restores the document; success leaves the run open for commit',
      '(*ec_p != 0) == (vx_state == state_type_abort) && (*ec_p == 0 ==> vx_state == state_type_begin)'),
